@@ -102,7 +102,115 @@ def scheduled_variants(P, fn):
     return out
 
 
+def closure_paths(P, cf, limit=4000):
+    """all paths entry -> return of a (small) closure with constant propagation of booleans (`let hit = matches!(..);
+    .. !hit`): [(frozenset of switch edges taken, value returned: True / False / None = not a constant)].  None when the
+    path budget is exceeded."""
+    out = []
+    budget = [limit]
+
+    def step(b, env, edges, seen):
+        if budget[0] <= 0:
+            return False
+        env = dict(env)
+        for s in cf.stmts(b):
+            if s["k"] != "assign" or s["p"]["proj"]:
+                continue
+            r = s["r"]
+            val = None
+            if r["k"] == "use" and r["a"].get("k") == "const" and r["a"].get("val") in (0, 1, True, False) and (r["a"].get("ty") == "bool"):
+                val = bool(r["a"]["val"])
+            elif r["k"] == "use" and r["a"].get("k") in ("copy", "move") and not r["a"]["p"]["proj"]:
+                val = env.get(r["a"]["p"]["l"])
+            elif r["k"] == "unop" and r.get("op") == "Not" and r["a"].get("k") in ("copy", "move") and not r["a"]["p"]["proj"]:
+                v = env.get(r["a"]["p"]["l"])
+                val = (not v) if isinstance(v, bool) else None
+            if val is None:
+                env.pop(s["p"]["l"], None)
+            else:
+                env[s["p"]["l"]] = val
+        t = cf.term(b)
+        k = t["k"]
+        if k == "return":
+            budget[0] -= 1
+            out.append((frozenset(edges), env.get(0)))
+            return True
+        if k == "call" and t.get("dest") and not t["dest"]["proj"]:
+            env.pop(t["dest"]["l"], None)
+        succs = []
+        if k == "switch":
+            d = t["d"]
+            known = env.get(d["p"]["l"]) if ("p" in d and not d["p"]["proj"]) else None
+            if isinstance(known, bool):
+                x = int(known)
+                tgt = None
+                for v, tg in t["branches"]:
+                    if v == x:
+                        tgt = tg
+                succs = [tgt if tgt is not None else t["otherwise"]]
+            else:
+                succs = [tg for _v, tg in t["branches"]] + [t["otherwise"]]
+        else:
+            succs = [x for x in cf.succs(b) if x != t.get("unwind")]
+        for sx in succs:
+            if (b, sx) in seen:
+                continue        # one pass through each edge is enough for the closures at hand (no loops expected)
+            if not step(sx, env, edges + ([(b, sx)] if k == "switch" else []), seen | {(b, sx)}):
+                return False
+        return True
+    ok = step(0, {}, [], frozenset())
+    return out if ok else None
+
+
+def retain_predicate_facts(P, cf, variant):
+    """for a retain predicate over the rerun queue: (keeps_others, keyed, detail).  keeps_others: every path that does
+    not take the `variant` edge of a switch on the command returns the constant true.  keyed: every path that can return
+    something else than true passes the true outcome of an equality between the variant's payload and something."""
+    paths = closure_paths(P, cf)
+    sws = _command_switches(P, cf)
+    if paths is None or not sws:
+        return None
+    target_edges, other_edges = set(), set()
+    for (sb, es) in sws:
+        for (tgt, outcome) in es:
+            if len(outcome) == 1 and "<other>" not in outcome and (variant is None or variant in outcome):
+                target_edges.add((sb, tgt))
+            else:
+                other_edges.add((sb, tgt))
+    eq_edges = guard_edges(P, cf, lambda atom, outcome, bb: atom[0] == "call" and strip_generics(atom[1]).endswith("::eq") and outcome is True and
+                           any(any(x[0] == "downcast" and (variant is None or x[2] == variant) for x in walk(s_)) for s_ in atom[2]))
+    keeps = True
+    keyed = True
+    for (edges, ret) in paths:
+        if not (edges & target_edges) and ret is not True:
+            keeps = False
+        if ret is not True and not (edges & eq_edges):
+            keyed = False
+    return keeps, keyed, "%d path(s)" % len(paths)
+
+
+def _retain_closure_at(P, fn, b):
+    t = fn.term(b)
+    if t["k"] != "call" or method(cname(t)) not in ("retain", "retain_mut"):
+        return None
+    tr = tracer(P, fn)
+    for a in t["args"][1:]:
+        e = tr.operand(a, endpos(fn, b))
+        for x in sorted(strip(e) | ({e} if e[0] == "closure" else set()), key=repr):
+            if x[0] == "closure" and x[1] in P.fns:
+                return P.fns[x[1]]
+    return None
+
+
 def _key_guard(P, fn, rb, variant, mapfield):
+    cf = _retain_closure_at(P, fn, rb)
+    if cf is not None:
+        r = retain_predicate_facts(P, cf, variant)
+        return bool(r and r[1])
+    return _key_guard_loop(P, fn, rb, variant, mapfield)
+
+
+def _key_guard_loop(P, fn, rb, variant, mapfield):
     """the removal is guarded by an equality between the rerun's payload key and the search key"""
     def pred(atom, outcome, bb):
         if atom[0] != "call":
